@@ -8,7 +8,8 @@ const { compile } = require('../lib/world')
 const { SETS } = require('../lib/cfgset')
 const { Rng, hashStr, clip, chunk } = require('../lib/util')
 
-const DIRECTIVES = ["'use strict'", '"use strict"', "'other directive'", '"twelve chars!"', "'use strict'", "'don\\'t touch'", '"esc\\x41ped \\u0064irective"', "'line \\\ncontinuation'", "'use\\x20strict'", "''"]
+// (directives that engines or tools know by name are the ones a rewriter is tempted to treat specially: 'use asm', "use client", 'use server', 'ngInject')
+const DIRECTIVES = ["'use strict'", '"use strict"', "'use asm'", '"use client"', "'use server'", "'ngInject'", "'other directive'", '"twelve chars!"', "'use strict'", "'don\\'t touch'", '"esc\\x41ped \\u0064irective"', "'line \\\ncontinuation'", "'use\\x20strict'", "''"]
 // statements that stand where a directive could stand but are NOT directives (they end the directive prologue and
 // must not turn into one: a template, a parenthesised string, a string followed by an operator)
 const PSEUDO = [";'use strict'", ';;"use strict"', '`use strict`', "('use strict')", "'use strict', 0", "'use strict'.length", 'String.raw`use strict`', "+'use strict'", "'use strict'\n+ ''", '`use strict` + 1']
